@@ -355,6 +355,66 @@ def state_rule(fx, prefix="ffi::", bare=("value::JsValue", "gc::Gc<")):
     return out
 
 
+def arg_positions_rule(fx, prefix=("ffi::", "<ffi::"), callee="Interpreter::call_function", argpos=3):
+    """[(fn, span, ok)]: the argument vector handed to a script function is built position by position (`map`), never with `filter_map`: a NULL
+    element that is left out moves every later argument one place to the left"""
+    from c09 import ancestors
+    out = []
+    groups = {}
+    for f in fx.fns.values():
+        if f.parent.startswith(prefix) and not f.derived:
+            groups.setdefault(f.parent, []).append(f)
+    for parent, fs in sorted(groups.items()):
+        for f in fs:
+            for bi, t in f.calls():
+                if not (t[1].get("d") or "").endswith(callee) or len(t[2]) <= argpos or t[2][argpos][0] not in ("c", "m"):
+                    continue
+                anc = ancestors(f, t[2][argpos][1][0])
+                bad = [t2 for b2, t2 in f.calls() if (t2[1].get("u") or "").endswith("Iterator::filter_map") and not t2[3][1] and t2[3][0] in anc]
+                out.append((f, t[6], not bad))
+    return out
+
+
+def extend_rule(fx, prefix=("ffi::", "<ffi::")):
+    """[(fn, param, span, ok)]: an integer parameter of an exported function that decides how far a collection is extended (`while v.len() <= index
+    { v.push(..) }`, `v.resize(n, ..)`) is compared with a constant first: `usize::MAX` must be refused, not obeyed"""
+    import c10
+    import loops as L
+    from c09 import ancestors
+    out = []
+    for f in sorted(externs(fx), key=lambda g: g.path):
+        ints = [p for p in range(1, f.argc + 1) if fx.tys(f.locals[p]) in ("usize", "u64", "u32")]
+        if not ints:
+            continue
+        guards = None
+        loops = L.natural_loops(f)
+        for p in ints:
+            sites = []
+            # `while v.len() <= index { push }`: a comparison of the parameter with a len() steering a loop that pushes
+            for hd, body in loops:
+                pushes = [bi for bi, t in f.calls() if bi in body and (t[1].get("d") or "").endswith(("Vec::<T, A>::push", "::resize", "::reserve"))]
+                if not pushes:
+                    continue
+                for bi in body:
+                    for s_ in f.blocks[bi]["s"]:
+                        if s_[0] == "a" and s_[2][0] == "bin" and s_[2][1] in ("Le", "Lt", "Ge", "Gt"):
+                            ops = [o for o in s_[2][2:4] if o[0] in ("c", "m")]
+                            ancs = [ancestors(f, o[1][0]) for o in ops]
+                            if any(p in a for a in ancs) and any(any((t[1].get("d") or "").endswith("::len") and not t[3][1] and t[3][0] in a for _, t in f.calls()) for a in ancs):
+                                sites.append((bi, s_[3]))
+            for bi, t in f.calls():
+                if (t[1].get("d") or "").endswith(("Vec::<T, A>::resize", "Vec::<T, A>::with_capacity", "Vec::<T, A>::reserve")):
+                    if any(a[0] in ("c", "m") and p in ancestors(f, a[1][0]) for a in t[2][-1:] if (t[1].get("d") or "").endswith("with_capacity")) or \
+                            any(a[0] in ("c", "m") and p in ancestors(f, a[1][0]) for a in t[2][1:2]):
+                        sites.append((bi, t[6]))
+            for bi, sp in sites:
+                if guards is None:
+                    guards = c10.guards_for(fx, f)
+                ok = c10.guarded(fx, f, bi, c10.root_of(f, p), 2 ** 32, guards)
+                out.append((f, f.var_name(p) or "_%d" % p, sp, ok))
+    return out
+
+
 def run(tier):
     ck = Check("C17", tier, "null-test dominance on MIR CFG for extern \"C\" pointer parameters (helpers, closures, array idiom) + C header parser compared with compiled signatures + RefCell-guard-held-across-hazard dataflow",
                ["aliasing of `&mut TsRunContext` re-borrowed inside native callbacks", "callback re-entrancy protocols",
@@ -380,6 +440,21 @@ def run(tier):
             ck.finding("R8.api-state-holds-guarded-values", "R8.api-state-holds-guarded-values/%s/%s" % (adt8, fld8), None,
                        "`%s` keeps a script value in `%s: %s`: the collector does not trace API-layer state, so an object stored there between two calls (a module builder's "
                        "export between add_value and register) is swept by the next collection and the script reads a recycled object" % (adt8, fld8, ty8))
+    ck.rule("R9.argument-positions-kept", "the argument vector a C API function hands to a script function is built with `map`, never `filter_map` (a NULL element is `undefined`, "
+            "not a gap)", floor=2)
+    for f9, sp9, ok9 in arg_positions_rule(fx):
+        ck.instance("R9.argument-positions-kept", f9.parent, F.short_span(sp9), ok=ok9)
+        if not ok9:
+            ck.finding("R9.argument-positions-kept", "R9.argument-positions-kept/%s" % f9.parent, F.short_span(sp9),
+                       "`%s` builds the argument list with `filter_map`: a NULL element is dropped and the later arguments move one place to the left "
+                       "(`f(NULL, 2)` reaches the script as `f(2)`)" % f9.parent)
+    ck.rule("R10.host-sizes-bounded", "an integer parameter of an exported function that decides how far a collection is extended is compared with a constant first", floor=1)
+    for f10, p10, sp10, ok10 in extend_rule(fx):
+        ck.instance("R10.host-sizes-bounded", "%s(%s)" % (f10.path.split("::")[-1], p10), F.short_span(sp10), ok=ok10)
+        if not ok10:
+            ck.finding("R10.host-sizes-bounded", "R10.host-sizes-bounded/%s/%s" % (f10.path.split("::")[-1], p10), F.short_span(sp10),
+                       "`%s` extends a collection up to the host-supplied `%s` without an upper bound: `usize::MAX` makes the loop run until memory is exhausted "
+                       "(the process aborts inside extern \"C\")" % (f10.path.split("::")[-1], p10))
     got8 = sorted((a.split("::")[-1], ok) for a, fl, ty, ok in state_rule(F.load_fixture(), prefix="c17state::"))
     if got8 != [("BadBuilder", False), ("GoodBuilder", True), ("GoodHandles", True)]:
         ck.closed_fail.append("R8 control failed: fixture gives %s" % got8)
